@@ -276,6 +276,45 @@ pub fn run(ctx: &mut Ctx) {
         }
     });
 
+    // ---- map constants: a revived program holds rebuilt hash maps (new hasher state, new iteration order) ------------
+    // Whatever walks a map constant at run time - macros, renderings, comparisons, membership - gives the revived
+    // program the same result as the original.
+    let nmc = ctx.n(4_000, 60_000);
+    ctx.stage("map-constants", nmc, true, |_idx, rng, rep| {
+        let nkeys = 2 + rng.below(14);
+        let mut keys: Vec<String> = Vec::new();
+        while keys.len() < nkeys {
+            let k = format!("{}{}", rng.pick(&["k", "a", "zz", "é", "", "key_"]), rng.below(40));
+            if !keys.contains(&k) {
+                keys.push(k);
+            }
+        }
+        let entries: Vec<String> = keys.iter().enumerate().map(|(i, k)| format!("{}: {}", crate::vals::spell_string(k), match rng.below(4) {
+            0 => format!("{}", i),
+            1 => format!("'{}'", i),
+            2 => format!("[{}, x]", i),  // keeps the map a run-time literal with constant keys
+            _ => format!("{}.5", i),
+        })).collect();
+        let m = format!("{{{}}}", entries.join(", "));
+        let src = match rng.below(12) {
+            0 => format!("{}.filter(k, x == x)", m),
+            1 => format!("{}.filter(k, size(k) > x)", m),
+            2 => format!("{}.map(k, k)", m),
+            3 => format!("{}.map(k, x == x, k)", m),
+            4 => format!("{}.filter(k, x == x)[0]", m),
+            5 => format!("f'{{{}.filter(k, x == x)}}'", m.replace('\'', "\"")),
+            6 => format!("{}.map(k, k).reduce(acc, k, acc + k, '')", m),
+            7 => format!("[x].map(i, {}.filter(k, i == i))[0]", m),
+            8 => format!("{} == {}", m, m),
+            9 => format!("{}.all(k, size(k) >= x)", m),
+            10 => format!("x in {} || {}.exists(k, k == 'zz1')", m, m),
+            _ => format!("{}.filter(k, x == x).map(k, k + '!')", m),
+        };
+        rep.count("map_constant_programs");
+        let vars = vec![gen::VarDecl { name: "x".into(), ty: gen::Ty::Int }];
+        check_program(rep, rng, &src, &vars, "map-constants");
+    });
+
     // ---- deep and wide programs: whatever the compiler accepts must survive the round trip --------------------
     const DEPTHS: [usize; 20] = [1, 2, 4, 8, 12, 16, 20, 24, 28, 32, 36, 40, 44, 46, 47, 48, 64, 100, 300, 1000];
     let ladders = crate::props::c01::LADDERS;
